@@ -2,7 +2,7 @@
 (* Row validation (binding B2) for C18: unit-suffix conversions observed on *)
 (* the real uom quantity types, judged by Suffix.tla.                       *)
 (*  t="unit" q w kind lit suf upok obs     t="amp" ...     t="db" ...       *)
-EXTENDS Suffix, TLC, Json, IOUtils
+EXTENDS Suffix, SuffixCore, TLC, Json, IOUtils
 
 Rows == ndJsonDeserialize(IOEnv.ROWS)
 N == Len(Rows)
@@ -18,6 +18,7 @@ RowOk(r) ==
     LET o == Obs(r.obs) IN
     IF r.kind \notin {"num", "numsuf"} THEN o.k = "err"                     \* a non-numeric element is rejected
     ELSE /\ ((o.k = "ok") <=> r.upok)                                       \* matching ignores letter case
+         /\ (<<r.t, r.q, UpperSeq(r.suf)>> \in CoreSuffixes => o.k = "ok")   \* a defined suffix keeps converting
          /\ CASE r.t = "unit" -> UnitOk(r.q, r.lit, r.suf, o)
               [] r.t = "amp"  -> AmpOk(r.q, r.lit, r.suf, o)
               [] r.t = "db"   -> DbOk(r.q, r.lit, r.suf, o)
